@@ -12,7 +12,7 @@ from rdkit import Chem
 
 from harness import vlib
 from harness import molgen as MG
-from harness.fpgen import dump_fp, fpm
+from harness.fpgen import attempt, dump_fp, fpm
 
 from e3fp.fingerprint import generate as FG  # noqa: E402
 from e3fp.fingerprint.db import FingerprintDatabase  # noqa: E402
@@ -33,6 +33,16 @@ def db_rows(path):
     return rows
 
 
+def sdf_domain(ref):
+    try:
+        return MG.in_domain(Chem.RemoveHs(MG.load_ref(ref)), {"exclude_floating": True})
+    except Exception:  # noqa: BLE001
+        return False
+
+
+CONF_SMILES = ["CCO", "CC(=O)O", "CCCN", "CCOC", "OCCO", "CC(C)O", "NCC(=O)O", "CCCl"]
+
+
 class C15(vlib.Check):
     id = "C15"
     props_modules = ["E3fpVerif.Props.C15", "E3fpVerif.Props.C15Db"]
@@ -41,7 +51,9 @@ class C15(vlib.Check):
             "workers, shuffled input lists, 1-2 inputs replaced by unreadable files; databases compared as multisets of named rows "
             "with the model's collection of the serial per-input results; interruption: the batch runs in a subprocess whose save "
             "is made to exit after the k-th completed output, for every k, then a plain re-run and an overwrite re-run, comparing "
-            "SHA-256 of pre-existing outputs; and in-process resumption after some output files, then the whole output directory, were removed. Non-trivial: >= 2 good inputs and a non-serial mode or a bad input or an interruption.")
+            "SHA-256 of pre-existing outputs; and in-process resumption after some output files, then the whole output directory, were removed; the output files of save runs of BOTH batch routes (fingerprint.generate.run over SDF files, "
+            "conformer.generate.run over a SMILES file) with pre-existing valid / stale outputs, overwrite on and off, a failing input, "
+            "three modes, compared with the model's file-system fold (driver op batch.files). Non-trivial: >= 2 good inputs and a non-serial mode or a bad input or an interruption.")
     trusted_base = ["python_utilities.Parallelizer / concurrent.futures; the OS (files, processes, threads)"]
     assumptions = ["OS scheduling is sampled; a crash inside a write is outside the property; MPI mode cannot run here and is not claimed (partial by nature)"]
 
@@ -77,6 +89,30 @@ class C15(vlib.Check):
             self.count("mode:%s" % mode[0])
             yield {"t": "batch", "files": files, "bad": bad, "order": order, "opts": o, "mode": mode[0], "workers": mode[1],
                    "names": ["plain", "proto", "mixed"][k % 3]}
+        # output files under the save option, both batch routes (fingerprints from SDF files, conformers from a SMILES file):
+        # some outputs exist before the run (valid or stale), overwrite on / off, one failing input
+        for k in range(6 if self.tier == "quick" else 40):
+            route = ["fp", "conf"][k % 2]
+            n = rng.randint(3, 5)
+            pre = {}
+            for i in range(n):
+                r = rng.random()
+                if r < 0.3:
+                    pre[str(i)] = "stale"
+                elif r < 0.5:
+                    pre[str(i)] = "clean"
+            case = {"t": "files", "route": route, "n": n, "bad": rng.choice([None, rng.randrange(n)]), "pre": pre,
+                    "overwrite": rng.random() < 0.4, "mode": rng.choice([("serial", 1), ("threads", 2), ("processes", 2)]),
+                    "order": rng.sample(range(n), n)}
+            if route == "fp":
+                # inputs whose fingerprinting succeeds also after the SDF round trip (hydrogens are removed on reading, which
+                # can leave a salt like [NH4+].[Cl-] without any bonded heavy atom): the failing input is the unreadable file
+                case["files"] = rng.sample([r for r in refs if sdf_domain(r)], n)
+                case["opts"] = {"bits": 1024, "level": 2, "first": 2, "counts": False}
+            else:
+                case["smiles"] = rng.sample(CONF_SMILES, n)
+            self.count("files:" + route)
+            yield case
         for k in range(2 if self.tier == "quick" else 10):
             nfiles = rng.randint(4, 6)
             files = rng.sample(refs, nfiles)
@@ -134,7 +170,68 @@ class C15(vlib.Check):
                 out.append(None)
         return out
 
+    # ------------------------------------------------------------------ output files of a save run (both routes)
+    def _files_run(self, case, d, out, overwrite, order=None, mode=("serial", 1)):
+        """run the batch of `case` writing into directory `out`; returns {input index: file name}"""
+        n = case["n"]
+        order = list(range(n)) if order is None else order
+        if case["route"] == "fp":
+            c2 = {"files": case["files"], "bad": [] if case["bad"] is None else [case["bad"]], "names": "plain"}
+            paths = self._inputs(c2, os.path.join(d, "inp"))
+            o = case["opts"]
+            FG.run([paths[i] for i in order], bits=o["bits"], first=o["first"], level=o["level"], counts=o["counts"],
+                   out_dir_base=os.path.join(out, "L"), overwrite=overwrite, parallel_mode=mode[0], num_proc=mode[1] if mode[0] != "serial" else None)
+            return {i: os.path.join("L%d" % o["level"], "mol%02d.fp.bz2" % i) for i in range(n)}
+        from e3fp.conformer import generate as CG
+        smi = os.path.join(d, "in_%s.smi" % "_".join(map(str, order)))
+        os.makedirs(d, exist_ok=True)
+        with open(smi, "w") as f:
+            for i in order:
+                f.write("%s m%02d\n" % ("C1CC" if i == case["bad"] else case["smiles"][i], i))
+        CG.run(smiles=[smi], num_conf=3, seed=42, out_dir=out, overwrite=overwrite, parallel_mode=mode[0],
+               num_proc=mode[1] if mode[0] != "serial" else None)
+        return {i: "m%02d.sdf.bz2" % i for i in range(n)}
+
+    def _files_state(self, case):
+        """clean outputs, then the run under test on a directory prepared with the pre-existing files; returns
+        ({index: 'clean'|'stale'|'other'|absent}, names)"""
+        d = tempfile.mkdtemp(prefix="f_", dir=self.tmp())
+        try:
+            clean = os.path.join(d, "clean")
+            names = self._files_run(case, d, clean, False)
+            ref = {}
+            for i, fn in names.items():
+                p = os.path.join(clean, fn)
+                ref[i] = open(p, "rb").read() if os.path.exists(p) else None
+            out = os.path.join(d, "out")
+            for i, kind in case["pre"].items():
+                i = int(i)
+                if ref[i] is None and kind == "clean":
+                    continue
+                p = os.path.join(out, names[i])
+                os.makedirs(os.path.dirname(p), exist_ok=True)
+                with open(p, "wb") as f:
+                    f.write(b"stale" if kind == "stale" else ref[i])
+            self._files_run(case, d, out, case["overwrite"], case["order"], tuple(case["mode"]))
+            state = {}
+            for i, fn in names.items():
+                p = os.path.join(out, fn)
+                if os.path.exists(p):
+                    b = open(p, "rb").read()
+                    state[str(i)] = "clean" if b == ref[i] else ("stale" if b == b"stale" else "other")
+            extra = []
+            for root, _dirs, fs in os.walk(out):
+                for fn in fs:
+                    rel = os.path.relpath(os.path.join(root, fn), out)
+                    if rel not in names.values():
+                        extra.append(rel)
+            return {"state": state, "extra": sorted(extra), "clean_missing": sorted(str(i) for i in ref if ref[i] is None)}
+        finally:
+            shutil.rmtree(d, ignore_errors=True)
+
     def impl(self, case):
+        if case["t"] == "files":
+            return attempt(lambda: self._files_state(case))
         if case["t"] != "batch":
             return {"ok": "see prop"}
         d = tempfile.mkdtemp(prefix="b_", dir=self.tmp())
@@ -149,6 +246,10 @@ class C15(vlib.Check):
             shutil.rmtree(d, ignore_errors=True)
 
     def model_ops(self, case):
+        if case["t"] == "files":
+            jobs = [[str(i), None if i == case["bad"] else "clean"] for i in case["order"]]
+            pre = [[i, k] for i, k in sorted(case["pre"].items()) if not (k == "clean" and int(i) == case["bad"])]
+            return [{"op": "batch.files", "overwrite": case["overwrite"], "jobs": jobs, "fs": pre}]
         if case["t"] != "batch":
             return [{"op": "fpr.hash", "words": []}]
         d = tempfile.mkdtemp(prefix="m_", dir=self.tmp())
@@ -161,6 +262,11 @@ class C15(vlib.Check):
         return [{"op": "batch.collect", "outcomes": [None if outs[i] is None else [vlib.canon(r) for r in outs[i]] for i in sched]}]
 
     def model_answer(self, case, answers):
+        if case["t"] == "files":
+            a = answers[0]
+            if "ok" not in a:
+                return a
+            return {"ok": {"state": {p: c for p, c in a["ok"]}, "extra": [], "clean_missing": [] if case["bad"] is None else [str(case["bad"])]}}
         if case["t"] != "batch":
             return {"ok": "see prop"}
         import json
@@ -172,6 +278,8 @@ class C15(vlib.Check):
         return {"ok": rows if rows else None}
 
     def compare(self, case, a_impl, a_model):
+        if case["t"] == "files":
+            return vlib.Check.compare(self, case, a_impl, a_model)
         if case["t"] != "batch":
             return None
         if "ok" not in a_impl:
@@ -184,6 +292,26 @@ class C15(vlib.Check):
 
     # ------------------------------------------------------------------ property
     def prop(self, case):
+        if case["t"] == "files":
+            r = attempt(lambda: self._files_state(case))
+            if "err" in r:
+                return {"key": "batch-raises:files:%s:%s" % (case["route"], r["err"]), "what": "the %s batch raised %s" % (case["route"], r["err"])}
+            st = r["ok"]["state"]
+            for i in range(case["n"]):
+                k = case["pre"].get(str(i))
+                if i == case["bad"]:
+                    want = k if k == "stale" else None          # a failing input writes nothing and touches nothing
+                elif k is not None and not case["overwrite"]:
+                    want = k                                    # existing outputs are left byte-for-byte untouched
+                else:
+                    want = "clean"                              # missing outputs are completed, overwrite regenerates
+                if st.get(str(i)) != want:
+                    return {"key": "save-run-files:%s:%s" % (case["route"], "overwrite" if case["overwrite"] else "resume"),
+                            "what": "%s batch (%s x%d, overwrite=%s): output %d is %s, expected %s (pre-existing: %s)" % (
+                                case["route"], case["mode"][0], case["mode"][1], case["overwrite"], i, st.get(str(i)), want, k)}
+            if r["ok"]["extra"]:
+                return {"key": "save-run-extra-files:" + case["route"], "what": "unexpected output files %s" % r["ok"]["extra"]}
+            return None
         d = tempfile.mkdtemp(prefix="p_", dir=self.tmp())
         try:
             paths = self._inputs(case, d)
